@@ -289,6 +289,8 @@ def _main(prop, args, seed, root, t0):
         print('HARNESS-ERROR: cannot import %s\n%s' % (modname, traceback.format_exc()))
         return 2
     tier = args.tier
+    if hasattr(mod, 'set_root'):
+        mod.set_root(root)
 
     if args.replay:
         with open(args.replay) as fd:
@@ -342,6 +344,8 @@ def _main(prop, args, seed, root, t0):
 
     # 2. the campaign
     try:
+        if hasattr(mod, 'set_root'):
+            mod.set_root(root)
         shards = mod.plan(tier, seed)
     except Exception:
         print('HARNESS-ERROR: plan failed\n%s' % traceback.format_exc())
